@@ -6,10 +6,16 @@ databases; the implementation must raise and every live database must be observa
 import core
 import dbgen
 import fpgen
+from props import c16_cov
 
 
 def _state(h):
-    return [(lo['h'], dbgen.db_lit(lo['db']), str(lo['items']), lo['eq']) for lo in h.steps[-1]['live']] if h.steps else []
+    if not h.steps:
+        return []
+    live = h.steps[-1]['live']
+    if [lo['h'] for lo in live] != list(h.live):      # the set of observed handles was changed since the last step (c16_cov.ensure_live / drop_live)
+        live = h.observe()
+    return [(lo['h'], dbgen.db_lit(lo['db']), str(lo['items']), lo['eq']) for lo in live]
 
 
 def run(ctx):
@@ -25,6 +31,7 @@ def run(ctx):
         nonlocal found_input
         before = _state(h)
         live_before = list(h.live)
+        snap_before = c16_cov.snap_live(h)       # dtype / shape / container types too; read without calling a method of the database
         r = f()
         dist['fault_ops'] += 1
         dist['by_fault'][kind] = dist['by_fault'].get(kind, 0) + 1
@@ -39,7 +46,8 @@ def run(ctx):
             return
         dist['impl_refused'] += 1
         after = [x for x in _state(h) if x[0] in live_before]
-        if after != before or h.live != live_before:
+        snap_after = [x for x in c16_cov.snap_live(h) if x[0] in live_before]
+        if after != before or h.live != live_before or snap_after != snap_before:
             found_input = True
             ctx.fail('database changed by a refused operation (%s at position %s)' % (kind, pos),
                      {'history': dbgen.steps_json(h.steps)[-2:], 'fault': kind, 'position': pos, 'ops': dbgen.descs_of(h.steps)},
@@ -192,6 +200,20 @@ def run(ctx):
         fault(h, 'from_array:props-len', 0, lambda: h.op_from_array(dk, d.level, d.bits, False, dk, [[(0, 1)], [(1, 1)]], ['a', None], [('p', [1, 2, 3])]))
         for nm in (['a'], ['a', None, 'b'], []):
             fault(h, 'from_array:names-len', len(nm), lambda: h.op_from_array(dk, d.level, d.bits, False, dk, [[(0, 1)], [(1, 1)]], nm, []))
+        # ---- coverage extension (props/c16_cov.py; table in work/coverage_C16.md)
+        env = c16_cov.Env(ctx, h, dist, fault)
+        c16_cov.extra_add_faults(env, t)
+        c16_cov.empty_targets(env, t)
+        more_aliens = c16_cov.concat_more(env, t)
+        c16_cov.from_array_more(env, t)
+        c16_cov.direct_prop_faults(env, t)
+        c16_cov.direct_add_faults(env, t)
+        c16_cov.direct_concat_forms(env, t, dict(aliens, **more_aliens))
+        c16_cov.direct_from_array(env, t)
+        c16_cov.derived_targets(env, t)
+        c16_cov.tail(env, t)
+        c16_cov.direct_seq_valued_props(env, t)
+        found_input = found_input or env.found
         hists['c16-%d' % i] = h
         if i < 3:
             lastf = [s for s in h.steps if s['tag'].endswith('_fault')]
@@ -205,9 +227,18 @@ def run(ctx):
     ctx.coverage['rule'] = ('one evaluation = one faulty operation (add with a wrong-length / wrong-level / both / property-less fingerprint at '
                             'every position of a batch of 1-5, on a filled and on an empty database; empty batch; set_prop / update_props with a '
                             'wrong-length column at every position; concat with an operand of other type / bits / level / property columns at every '
-                            'position of 2-4; update_props(append=True) mixing good fresh columns, stored columns extended by nothing and one faulty column (a stored column extended by values / a fresh column of wrong length) at every position of 1-3; from_array with a wrong-length column or a wrong number of names; property columns declared on an empty database before the first addition) applied at the end of a random base history; all are '
-                            'non-trivial; distinct by (fault, position, operation literal). Each is checked twice: directly (raised; every live '
-                            'database observably identical before/after: CSR buffers, names, name index, property arrays, db[i], ==) and against '
+                            'position of 2-4; update_props(append=True) mixing good fresh columns, stored columns extended by nothing and one faulty column (a stored column extended by values / a fresh column of wrong length) at every position of 1-3; from_array with a wrong-length column or a wrong number of names; property columns declared on an empty database before the first addition) applied at the end of a random base history; '
+                            'coverage extension (props/c16_cov.py): near-miss lengths (bits+-1, x2, /2) and levels (+-1) at every position, two faults in one batch, '
+                            'batches of 12, tuple / keyword / generator call forms, targets derived from the target (copy, alias handle, as_type, pickle, deepcopy, reload .fpz/.fps, '
+                            'subset, fold to the same length, concat with itself: shared buffers, the source is observed too), property faults on databases without rows '
+                            '(never filled / declared columns / 0-row matrix), concat with an operand lacking a column or lacking a matrix and through tuple / generator / append() / dbs=, '
+                            'from_array with the faulty column at every position, good operations after the refusals followed by faults again; and implementation-only faults '
+                            '(counted in direct_ops; no model literal): property values that are scalars, strings of row-count characters, 0-d / 2-D arrays, other dtypes and containers, '
+                            'ragged lists - in set_prop (positional / keyword forms), at every position of update_props (append or not) and in from_array; the '
+                            'database\'s own props dict appended to itself; batch members that are not fingerprints; a fingerprint whose property VALUE is a sequence '
+                            '(on a deep copy of the target and on a new database); all are '
+                            'non-trivial; distinct by (fault, position, operation literal). Each fault with a model literal is checked twice (the implementation-only ones directly only): directly (raised; every live '
+                            'database observably identical before/after: CSR buffers, names, name index, property arrays, db[i], ==, and a structural snapshot with dtypes, shapes and container types) and against '
                             'the model (same exception class, same full state).')
     ctx.coverage['input_distribution'] = dist
     ctx.assumptions += ['SciPy/NumPy containers (vstack, csr_matrix, np.append, fancy indexing, pickle) behave as modelled; exercised by the correspondence only',
@@ -223,6 +254,12 @@ def replay(ctx, path):
     case = d.get('case', {})
     ops = case.get('ops') or [s['op'] for s in case.get('minimal_history', [])]
     print(json.dumps({k: v for k, v in d.items() if k != 'case'}, indent=1))
+    if case.get('direct'):
+        # an implementation-only fault (no model literal): rebuild the history, run the described call again
+        core.setup_env()
+        h = dbgen.replay_descs(ops)
+        print(json.dumps(case['direct'], indent=1)[:3000])
+        return 1 if c16_cov.replay_direct(h, case) else 0
     if not ops:
         print(json.dumps(case, indent=1)[:4000])
         return 0
